@@ -164,7 +164,7 @@ func c09lRun(sc c09lScenario) (vs []ev.V) {
 
 func TestVerifC09LMTP(t *testing.T) {
 	r := ev.Get("C09")
-	ev.Run(t, r, ev.Spec[c09lScenario]{Name: "lmtp", N: r.N, Gen: func(t *rapid.T) c09lScenario {
+	ev.Run(t, r, ev.Spec[c09lScenario]{Name: "lmtp", Journal: true, N: r.N, Gen: func(t *rapid.T) c09lScenario {
 		sc := c09lScenario{LMTP: rapid.IntRange(0, 3).Draw(t, "lmtp") != 0, HopUTF8: rapid.Bool().Draw(t, "hop_utf8")}
 		for i, n := 0, rapid.IntRange(1, 3).Draw(t, "ntx"); i < n; i++ {
 			tx := c09lTx{Faults: map[string]string{}, UTF8: rapid.Bool().Draw(t, "utf8")}
